@@ -74,7 +74,8 @@ Inductive ev : Type :=
 | EvCaught (e : nat)
 | EvFin (l : list oid)
 | EvFatal (e : nat)
-| EvExit (l : list oid).
+| EvExit (l : list oid)
+| EvRestart.                (* the Thread object was called again (written by the caller) *)
 
 Definition key_error : nat := 0.          (* index of KeyError in the drivers' exception table *)
 
@@ -101,6 +102,13 @@ Definition set_fatal (l : lstate) := mkL (me l) (code l) (serial l) (reg l) (roo
 
 Definition linit (t : tid) (p : list op) : lstate :=
   mkL t (map KOp p) 0 [] [] [] (mkE 0 false None) [] [] false false.
+
+(* Thread_Call on a Thread object whose previous run has finished and been joined: the function runs again
+   in a new pthread with a fresh collector and a fresh exception record (Thread_Init_Run); the Thread
+   object's TLS table (created by Thread_New) is the same table; serial numbers, the finalisation ledger and
+   the result trace (with a marker) continue *)
+Definition restart (l : lstate) (p : list op) : lstate :=
+  mkL (me l) (map KOp p) (serial l) [] [] (fin l) (mkE 0 false None) (tls l) (EvRestart :: out l) false false.
 
 Definition oid_eqb (a b : oid) : bool := (fst a =? fst b) && (snd a =? snd b).
 Definition omem (o : oid) (l : list oid) : bool := existsb (oid_eqb o) l.
@@ -234,6 +242,7 @@ Record sstate := mkS {
   seen : list (tid * list ev);(* result traces of other threads read by OPeek, newest first *)
   hist : list bool;           (* ghost: one entry per executed instruction, newest first: the trylock answer
                                  of an OTryOnce, true for everything else *)
+  past : list (list bool);    (* ghost: the histories of the earlier, completed runs of this Thread object, newest first *)
   ub : bool }.                (* undefined behaviour reached (unlock of a mutex not held, second join, ...) *)
 
 Record gstate := mkG {
@@ -241,7 +250,8 @@ Record gstate := mkG {
   mtx : mid -> option tid;
   cells : mid -> nat;
   gexc : exrec;               (* only used by the refuted variant shared_exc = true *)
-  aborted : bool }.
+  aborted : bool;
+  progs : list (list op) }.   (* the function of every Thread object (immutable) *)
 
 Fixpoint upd {A} (l : list A) (i : nat) (x : A) : list A :=
   match l, i with
@@ -253,7 +263,7 @@ Fixpoint upd {A} (l : list A) (i : nat) (x : A) : list A :=
 Definition fupd {A} (f : nat -> A) (i : nat) (x : A) : nat -> A :=
   fun j => if j =? i then x else f j.
 
-Definition sinit (st : bool) : sstate := mkS st false [] 0 [] [] false.
+Definition sinit (st : bool) : sstate := mkS st false [] 0 [] [] [] false.
 Definition steps (s : sstate) : nat := length (hist s).
 
 Fixpoint init_from (t : tid) (ps : list (list op)) : list (lstate * sstate) :=
@@ -264,16 +274,19 @@ Fixpoint init_from (t : tid) (ps : list (list op)) : list (lstate * sstate) :=
 
 (* thread 0 is the main thread (running from the start), the others wait for OSpawn *)
 Definition ginit (ps : list (list op)) : gstate :=
-  mkG (init_from 0 ps) (fun _ => None) (fun _ => 0) (mkE 0 false None) false.
+  mkG (init_from 0 ps) (fun _ => None) (fun _ => 0) (mkE 0 false None) false ps.
 
 Definition bump (ok : bool) (s : sstate) : sstate :=
-  mkS (started s) (joined s) (holding s) (tmp s) (seen s) (ok :: hist s) (ub s).
-Definition set_holding (s : sstate) h := mkS (started s) (joined s) h (tmp s) (seen s) (hist s) (ub s).
-Definition set_tmp (s : sstate) v := mkS (started s) (joined s) (holding s) v (seen s) (hist s) (ub s).
-Definition add_seen (s : sstate) x := mkS (started s) (joined s) (holding s) (tmp s) (x :: seen s) (hist s) (ub s).
-Definition set_ub (s : sstate) := mkS (started s) (joined s) (holding s) (tmp s) (seen s) (hist s) true.
-Definition set_started (s : sstate) := mkS true (joined s) (holding s) (tmp s) (seen s) (hist s) (ub s).
-Definition set_joined (s : sstate) := mkS (started s) true (holding s) (tmp s) (seen s) (hist s) (ub s).
+  mkS (started s) (joined s) (holding s) (tmp s) (seen s) (ok :: hist s) (past s) (ub s).
+Definition set_holding (s : sstate) h := mkS (started s) (joined s) h (tmp s) (seen s) (hist s) (past s) (ub s).
+Definition set_tmp (s : sstate) v := mkS (started s) (joined s) (holding s) v (seen s) (hist s) (past s) (ub s).
+Definition add_seen (s : sstate) x := mkS (started s) (joined s) (holding s) (tmp s) (x :: seen s) (hist s) (past s) (ub s).
+Definition set_ub (s : sstate) := mkS (started s) (joined s) (holding s) (tmp s) (seen s) (hist s) (past s) true.
+Definition set_started (s : sstate) := mkS true (joined s) (holding s) (tmp s) (seen s) (hist s) (past s) (ub s).
+(* a new run of the thread: not joined yet, empty history, the old one archived *)
+Definition relaunch (s : sstate) : sstate :=
+  mkS true false (holding s) (tmp s) (seen s) [] (hist s :: past s) (ub s).
+Definition set_joined (s : sstate) := mkS (started s) true (holding s) (tmp s) (seen s) (hist s) (past s) (ub s).
 
 Definition rem_mid (m : mid) (h : list mid) : list mid := filter (fun x => negb (x =? m)) h.
 
@@ -283,13 +296,13 @@ Definition advance_ok (ok : bool) (g : gstate) (t : tid) (l : lstate) (s' : ssta
   let lv := if shared_exc then set_exc l (gexc g) else l in
   let l' := lstep ok lv in
   mkG (upd (thr g) t (l', bump ok s')) (mtx g) (cells g)
-      (if shared_exc then exc l' else gexc g) (aborted g || fatal l').
+      (if shared_exc then exc l' else gexc g) (aborted g || fatal l') (progs g).
 
 Definition advance := advance_ok true.
 
-Definition set_mtx (g : gstate) m v := mkG (thr g) (fupd (mtx g) m v) (cells g) (gexc g) (aborted g).
-Definition set_cell (g : gstate) m v := mkG (thr g) (mtx g) (fupd (cells g) m v) (gexc g) (aborted g).
-Definition set_thr (g : gstate) t x := mkG (upd (thr g) t x) (mtx g) (cells g) (gexc g) (aborted g).
+Definition set_mtx (g : gstate) m v := mkG (thr g) (fupd (mtx g) m v) (cells g) (gexc g) (aborted g) (progs g).
+Definition set_cell (g : gstate) m v := mkG (thr g) (mtx g) (fupd (cells g) m v) (gexc g) (aborted g) (progs g).
+Definition set_thr (g : gstate) t x := mkG (upd (thr g) t x) (mtx g) (cells g) (gexc g) (aborted g) (progs g).
 
 Definition acquire (g : gstate) (t : tid) (l : lstate) (s : sstate) (m : mid) (spin : bool) : gstate :=
   match mtx g m with
@@ -343,7 +356,15 @@ Definition gstep (t : tid) (g : gstate) : gstate :=
     | KOp (OSpawn u) :: _ =>
         match nth_error (thr g) u with
         | Some (lu, su) =>
-            if started su then set_thr g t (l, set_ub s)
+            if started su then
+              (* calling a Thread object again: defined only when its previous run has finished AND been joined
+                 (otherwise two pthreads share one struct Thread / a handle is lost) *)
+              if done lu && joined su then
+                match nth_error (progs g) u with
+                | Some p => advance (set_thr g u (restart lu p, relaunch su)) t l s
+                | None => set_thr g t (l, set_ub s)
+                end
+              else set_thr g t (l, set_ub s)
             else advance (set_thr g u (lu, set_started su)) t l s
         | None => set_thr g t (l, set_ub s)
         end
@@ -363,7 +384,7 @@ Definition gstep (t : tid) (g : gstate) : gstate :=
         end
     | KOp OCollect :: _ =>
         if walk_foreign
-        then advance (mkG (walk_others t 0 (thr g)) (mtx g) (cells g) (gexc g) (aborted g)) t l s
+        then advance (mkG (walk_others t 0 (thr g)) (mtx g) (cells g) (gexc g) (aborted g) (progs g)) t l s
         else advance g t l s
     | _ => advance g t l s
     end
@@ -374,6 +395,13 @@ Definition run (sched : list tid) (g : gstate) : gstate := fold_left (fun g t =>
 (* the thread on its own, given the answers its trylock attempts get (h: newest first, one entry per
    instruction); every other synchronisation instruction succeeds at once *)
 Definition alone (h : list bool) (l : lstate) : lstate := fold_right lstep l h.
+(* the state a run of Thread object t starts from, given the histories of its earlier, completed runs
+   (newest first): the first run starts from linit, a later one from the restart of the previous final state *)
+Fixpoint base (t : tid) (p : list op) (pa : list (list bool)) : lstate :=
+  match pa with
+  | [] => linit t p
+  | h :: older => restart (alone h (base t p older)) p
+  end.
 (* ... when every trylock succeeds (nobody else is there) *)
 Definition alone_n (n : nat) (l : lstate) : lstate := alone (repeat true n) l.
 
